@@ -283,3 +283,103 @@ Definition send_bid_op_gen (compare : bool) (tr : transport) (o : oracles) (a : 
   end.
 
 Definition send_bid_op := send_bid_op_gen true.
+
+(* ============================================================================================ *)
+(* The operational model with latencies: opening a stream and writing the bid take time, so the
+   deadline can overtake either of them (not only find the context expired at call time).
+   [send_bid_lat] with all latencies 0 is [send_bid_op] (proofs: [lat0_is_op]).
+
+   Per provider [lat p] gives how long NewStream takes to open the stream ([open_d]) and how long
+   WriteMsg then takes ([write_d]).  The three operations are issued one after the other: NewStream
+   at time 0, WriteMsg when the stream is open, ReadMsg when the write has completed; the reply
+   event of the script happens at [p_time p] (or when ReadMsg is issued, if that is later).
+   [l_ops] records which operations the goroutine issued, in order. *)
+(* ============================================================================================ *)
+Record latency := mkLat { open_d : N; write_d : N }.
+
+Inductive oper := OpNewStream | OpWrite | OpRead | OpVerify.
+
+(* an operation issued at [s] whose scripted completion is at [ev] (at or after s; None: never) *)
+Definition wait_from (watches_ctx : bool) (D s : N) (ev : option N) : opres :=
+  match ev with
+  | Some t => if watches_ctx && (D <=? t) then CtxErr (N.max s D) else Scripted t
+  | None => if watches_ctx then CtxErr (N.max s D) else Blocks
+  end.
+
+Record ltrace := mkL { l_addr : bytes; l_ops : list oper; l_written : list bid; l_out : gout; l_finish : time }.
+
+Definition provider_lat (compare : bool) (tr : transport) (lat : peer -> latency)
+           (vf : commitment -> outcome bytes) (sent : bid) (D : N) (p : peer) : ltrace :=
+  let ad := p_addr p in
+  (* providerStream, err := p.streamer.NewStream(ctx, provider, nil, p.preconfStream()) *)
+  match wait_from (ctx_newstream tr) D 0
+          (match p_reply p with RNewStreamErr => Some (p_time p) | _ => Some (open_d (lat p)) end) with
+  | Blocks => mkL ad [OpNewStream] [] GNothing Never
+  | CtxErr t => mkL ad [OpNewStream] [] GNothing (At t)
+  | Scripted s1 =>
+    match p_reply p with
+    | RNewStreamErr => mkL ad [OpNewStream] [] GNothing (At s1)
+    | _ =>
+      (* err = providerStream.WriteMsg(ctx, signedBid) *)
+      match wait_from (ctx_write tr) D s1
+              (match p_reply p with RWriteErr => Some (N.max s1 (p_time p)) | _ => Some (s1 + write_d (lat p)) end) with
+      | Blocks => mkL ad [OpNewStream; OpWrite] [sent] GNothing Never
+      | CtxErr t => mkL ad [OpNewStream; OpWrite] [sent] GNothing (At t)
+      | Scripted s2 =>
+        match p_reply p with
+        | RWriteErr => mkL ad [OpNewStream; OpWrite] [sent] GNothing (At s2)
+        | _ =>
+          (* err = providerStream.ReadMsg(ctx, preConfirmation) *)
+          match wait_from (ctx_read tr) D s2
+                  (match p_reply p with RSilence => None | _ => Some (N.max s2 (p_time p)) end) with
+          | Blocks => mkL ad [OpNewStream; OpWrite; OpRead] [sent] GNothing Never
+          | CtxErr t => mkL ad [OpNewStream; OpWrite; OpRead] [sent] GNothing (At t)
+          | Scripted t =>
+            match p_reply p with
+            | RFrames c _ =>
+                (* providerAddress, err := p.signer.VerifyPreConfirmation(preConfirmation) *)
+                let ops := [OpNewStream; OpWrite; OpRead; OpVerify] in
+                match vf c with
+                | Panic => mkL ad ops [sent] GCrash (At t)
+                | Err _ => mkL ad ops [sent] GNothing (At t)
+                | Ok a =>
+                    if compare && negb (obid_eqb (c_bid c) (Some sent))
+                    then mkL ad ops [sent] GNothing (At t)
+                    else if (t <? D) || pick_send tr
+                         then mkL ad ops [sent] (GDeliver (set_prov c a)) (At t)
+                         else mkL ad ops [sent] GNothing (At t)
+                end
+            | _ => mkL ad [OpNewStream; OpWrite; OpRead] [sent] GNothing (At t)
+            end
+          end
+        end
+      end
+    end
+  end.
+
+Definition l_crashed (g : ltrace) : bool := match l_out g with GCrash => true | _ => false end.
+Definition l_delivery (g : ltrace) : list (N * commitment) :=
+  match l_out g, l_finish g with GDeliver c, At t => [(t, c)] | _, _ => [] end.
+
+Record lrun := mkLRun {
+  lr_sent      : bid;
+  lr_traces    : list ltrace;                (* one per provider the topology returned, in order *)
+  lr_delivered : list (N * commitment);
+  lr_close     : time
+}.
+Inductive lresult := LErr | LPanic | LRun (r : lrun).
+
+Definition send_bid_lat (tr : transport) (lat : peer -> latency) (o : oracles) (a : call_args)
+           (view : list peer) (D : N) : lresult :=
+  match construct o a with
+  | Panic => LPanic
+  | Err _ => LErr
+  | Ok sent =>
+      match get_peers TProvider view with
+      | [] => LErr
+      | provs =>
+          let gs := map (provider_lat true tr lat (verify o) sent D) provs in
+          if existsb l_crashed gs then LPanic
+          else LRun (mkLRun sent gs (flat_map l_delivery gs) (tmax_list (map l_finish gs)))
+      end
+  end.
